@@ -426,9 +426,53 @@ func c04Run(rc *RunCtx, params any) {
 				mutName = "body-bit@fixed"
 			}
 		}
+		if p.FirstOnly && cOK && sOK && !p.Resume {
+			// did the rewriting steer what was negotiated? an untampered handshake of the same two
+			// configurations is the yardstick
+			scope += ":" + c04Effect(rc, pair, cspec, sspec)
+		}
 		rc.Violate(fmt.Sprintf("completed-despite-tampering:v%d:%s:%s:%s:ems%d:resume=%v%s", p.Ver, who, HsName(byte(p.Type)), mutName, p.EMS, p.Resume, scope),
 			"every copy of the %s sent by %s was rewritten in transit (%s, arg %d; %d copies altered), yet %s reported a successful handshake (kx=%s, EMS policy %d, resumed=%v, hello-verify=%v)", HsName(byte(p.Type)), p.From, p.Mut, p.Arg, altered, who, p.Kx, p.EMS, p.Resume, p.HV)
 	}
+}
+
+// c04View is what a completed handshake negotiated, as both endpoints and the wire show it.
+func c04View(pair *Pair) string {
+	cs, _ := pair.Client.ConnectionState()
+	ss, _ := pair.Server.ConnectionState()
+	cv, sv := dtls.VerifSessionOf(pair.Client), dtls.VerifSessionOf(pair.Server)
+	curve := uint16(0)
+	col := NewHsCollector()
+	for _, em := range pair.Net.Emits {
+		col.Feed(em, 0)
+	}
+	if skes := col.Of(pair.SName, HTServerKeyExchange); len(skes) > 0 {
+		curve, _ = ServerKeyExchangeCurve(skes[len(skes)-1].Body, pair.SSpec.PSK != "")
+	}
+
+	return fmt.Sprintf("suite=%04x/%04x alpn=%q/%q ems=%v/%v curve=%04x", uint16(cs.CipherSuiteID), uint16(ss.CipherSuiteID), cs.NegotiatedProtocol, ss.NegotiatedProtocol, cv.ExtendedMasterSec, sv.ExtendedMasterSec, curve)
+}
+
+// c04Effect compares the session the tampered handshake produced with the session an untampered
+// handshake of the same configurations produces: "steered" if they differ, "no-effect" otherwise.
+func c04Effect(rc *RunCtx, tampered *Pair, cspec, sspec EpSpec) string {
+	got := c04View(tampered)
+	n := NewSimNet(rc.S, NetRules{})
+	ctl, err := NewPairNamed(rc.S, n, cspec, sspec, &Env{}, "cc", "sc")
+	if err != nil {
+		return "effect-unknown"
+	}
+	defer ctl.Teardown()
+	if !ctl.Establish(30 * time.Second) {
+		return "effect-unknown"
+	}
+	if want := c04View(ctl); want != got {
+		rc.Note("steered", "untampered: "+want+" | tampered: "+got)
+
+		return "steered"
+	}
+
+	return "no-effect"
 }
 
 func init() {
